@@ -11,7 +11,7 @@ use crate::props::c13::check_container;
 use crate::runner::{CheckResult, Env, Job, Outcome, PropJob};
 use crate::util::{rc, splitmix, to_ascii, Seq};
 
-pub const RULE: &str = "views: case = backing string (length mixture 0..300, with boundary lengths) x history of 0..6 steps from {slice(a,b), rc(), prefix-like slice(0,b), suffix-like slice(a,len)} applied to a DnaString slice, a prefix(), a suffix() or a PackedDnaStringSet entry/slice; after EVERY step get/len/is_empty/bytes/ascii/to_dna_string/Display/Debug (length < 256: the bases; otherwise the descriptor's len and is_rc must be truthful)/iter/IntoIterator/to_owned (==, Hash, Ord, ndiffs against from_bytes of the model)/== against equal and unequal content elsewhere and against other views of the same string (its own rc() view, overlapping views)/k-mer accessors for K in {3,5,8,12,16,32,48,64} equal the corresponding substring (reverse-complemented when flagged) of the plain vector. distances: case = two equal-length slices (length mixture incl. 1023,1024,1025,2048,4096+) of different strings at different offsets, each forward or reverse-complemented, differing at generated positions biased to the first and last 64; hamming_dist must equal the naive count, symmetrically. Non-trivial = depth >= 2 with >= 1 rc, or a distance case with length >= 1024.";
+pub const RULE: &str = "views: case = backing string (length mixture 0..300, with boundary lengths) x history of 0..6 steps from {slice(a,b), rc(), prefix-like slice(0,b), suffix-like slice(a,len)} applied to a DnaString slice, a prefix(), a suffix() (the string built by from_bytes or by push + one/two extend calls) or a PackedDnaStringSet entry/slice; after EVERY step get/len/is_empty/bytes/ascii/to_dna_string/Display/Debug (length < 256: the bases; otherwise the descriptor's len and is_rc must be truthful)/iter/IntoIterator/to_owned (==, Hash, Ord, ndiffs against from_bytes of the model, also after extend() on the copy)/== against equal and unequal content elsewhere and against other views of the same string (its own rc() view, overlapping views)/k-mer accessors for K in {3,5,8,12,16,32,48,64} equal the corresponding substring (reverse-complemented when flagged) of the plain vector. distances: case = two equal-length slices (length mixture incl. 1023,1024,1025,2048,4096+) of different strings at different offsets, each forward or reverse-complemented, differing at generated positions biased to the first and last 64; hamming_dist must equal the naive count, symmetrically. Non-trivial = depth >= 2 with >= 1 rc, or a distance case with length >= 1024.";
 pub const TECHNIQUE: &str = "seeded proptest over nested slice/rc histories against a substring model; naive Hamming count";
 
 #[derive(Debug, Clone, Serialize, Deserialize)]
@@ -30,6 +30,9 @@ pub struct VCase {
     pub first: (u16, u16),
     pub steps: Vec<Step>,
     pub set_before: Seq,
+    /// how the backing string is built: 0 = from_bytes; otherwise push a head, then extend (in one or two calls)
+    #[serde(default)]
+    pub build: u16,
 }
 
 fn vcase(env: &Env) -> BoxedStrategy<VCase> {
@@ -50,13 +53,15 @@ fn vcase(env: &Env) -> BoxedStrategy<VCase> {
         (any::<u16>(), any::<u16>()),
         proptest::collection::vec(step, 0..7),
         proptest::collection::vec(0u8..4, 0..70),
+        prop_oneof![2 => Just(0u16), 3 => any::<u16>()],
     )
-        .prop_map(|(backing, origin, first, steps, set_before)| VCase {
+        .prop_map(|(backing, origin, first, steps, set_before, build)| VCase {
             backing,
             origin,
             first,
             steps,
             set_before,
+            build,
         })
         .boxed()
 }
@@ -109,6 +114,16 @@ pub fn check_view(what: &str, v: &DnaStringSlice, m: &[u8], is_rc: bool, salt: u
     }
     // owned copy: value identity against independent routes
     crate::props::c14::same(&format!("{} to_owned()", what), &v.to_owned(), m)?;
+    // the owned copy is a string like any other: appending to it gives the substring followed by the appended bases
+    {
+        let mut st = salt ^ 0x9e37;
+        let extra: Seq = (0..(splitmix(&mut st) % 70) as usize).map(|_| (splitmix(&mut st) & 3) as u8).collect();
+        let mut o = v.to_owned();
+        o.extend(extra.iter().cloned());
+        let mut want = m.to_vec();
+        want.extend_from_slice(&extra);
+        crate::props::c14::same(&format!("{} to_owned() then extend({} bases)", what, extra.len()), &o, &want)?;
+    }
     // equality with the same content held elsewhere, at another offset, in the other orientation
     let mut st = salt;
     let pad = (splitmix(&mut st) % 37) as usize;
@@ -172,6 +187,28 @@ pub fn check_view(what: &str, v: &DnaStringSlice, m: &[u8], is_rc: bool, salt: u
     Ok(())
 }
 
+/// The backing string, built by the route the case selects: the views must denote substrings of the plain
+/// base vector whichever way the string was assembled (from_bytes / push then extend / push, extend, extend).
+fn build_backing(b: &[u8], build: u16) -> DnaString {
+    if build == 0 {
+        return DnaString::from_bytes(b);
+    }
+    let n = b.len();
+    let head = crate::util::idx(build, n + 1).min(if build & 1 == 1 { 40 } else { n });
+    let mut d = DnaString::new();
+    for x in &b[..head] {
+        d.push(*x);
+    }
+    if build & 2 == 2 {
+        let mid = head + (n - head) / 2;
+        d.extend(b[head..mid].iter().cloned());
+        d.extend(b[mid..].iter().cloned());
+    } else {
+        d.extend(b[head..].iter().cloned());
+    }
+    d
+}
+
 pub fn check_views(c: &VCase) -> CheckResult {
     let b = &c.backing;
     let n = b.len();
@@ -182,11 +219,11 @@ pub fn check_views(c: &VCase) -> CheckResult {
     let set;
     let (backing_ref, mut view, mut model): (&DnaString, DnaStringSlice, Seq) = match c.origin {
         1 => {
-            d = DnaString::from_bytes(b);
+            d = build_backing(b, c.build);
             (&d, d.prefix(b0), b[..b0].to_vec())
         }
         2 => {
-            d = DnaString::from_bytes(b);
+            d = build_backing(b, c.build);
             (&d, d.suffix(n - a0), b[a0..].to_vec())
         }
         3 | 4 => {
@@ -202,7 +239,7 @@ pub fn check_views(c: &VCase) -> CheckResult {
             }
         }
         _ => {
-            d = DnaString::from_bytes(b);
+            d = build_backing(b, c.build);
             (&d, d.slice(a0, b0), b[a0..b0].to_vec())
         }
     };
@@ -248,6 +285,7 @@ pub fn check_views(c: &VCase) -> CheckResult {
         .label(rcs >= 2, "rc_twice")
         .label(depth >= 3, "depth>=3")
         .label(c.origin >= 3, "packed_set_origin")
+        .label(c.origin < 3 && c.build != 0, "backing_built_by_push+extend")
         .label(model.len() >= 256, "len>=256")
         .label(model.len() > 32, "len>32"))
 }
